@@ -48,6 +48,10 @@ var forbiddenImports = map[string]string{
 var ambientPkgs = map[string]bool{"time": true, "os": true, "runtime": true, "syscall": true, "os/user": true, "net": true}
 
 func runC09(p *core.Program, r *core.Report) {
+	// "never built from unfilled or partially filled buffers": the raw word is made of 4 bytes
+	// read into a buffer of the call itself, used only on the err == nil edge (= C01 R1.1-R1.3
+	// re-run; a pool or buffer that outlives the call can be consumed after a failed read)
+	r.Borrow("R9.3", func() { checkDrawRoutines(p, r, "R1.1", "R1.2", "R1.3") })
 	roles := GetRoles(p)
 
 	// R9.1 imports and directives (syntax of every module package)
